@@ -92,6 +92,15 @@ def r3_sections_monotone(chk):
                                      for x in walk_no_nested(h))
         chk.ob('C18.R3', 'genIndex/load-error-converted', good, where(mod, ups[0]), 'a broken index must raise a '
                                                                                     'package error')
+    if ups:
+        gs = ir.guards_of(common.stmt_of(ups[0]), fn)
+        okg = all(in_body and norm(t) in ("kwargs.get('old_index_data')", "'old_index_data' in kwargs",
+                                           "kwargs.get('old_index_data') is not None",
+                                           "'old_index_data' in kwargs and kwargs['old_index_data']")
+                  for t, in_body in gs)
+        chk.ob('C18.R3', 'genIndex/old-index-merged-whenever-given', okg, where(mod, ups[0]),
+               'the merge may depend on nothing but the presence of the earlier index (guards: %s)' %
+               [('' if b else 'not ') + norm(t)[:50] for t, b in gs])
     if len(loop) != 1:
         return
     lp = loop[0]
@@ -107,6 +116,30 @@ def r3_sections_monotone(chk):
     apps = [c for c in walk_no_nested(lp) if isinstance(c, ast.Call) and isinstance(c.func, ast.Attribute) and
             c.func.attr == 'append']
     ok = len(apps) == 4 and all(len(c.args) == 1 and _key_is(c.args[0], modv) for c in apps)
+    # guards: a module is entered under an OID whenever the status carries one; a list is created only when absent
+    src = {}
+    for s_ in walk_no_nested(lp):
+        if isinstance(s_, ast.Assign) and len(s_.targets) == 1 and isinstance(s_.targets[0], ast.Name) and \
+                isinstance(s_.value, ast.Call) and dotted_name(s_.value.func) == 'getattr':
+            src[s_.targets[0].id] = s_
+    for c in apps:
+        st = common.stmt_of(c)
+        gs = ir.guards_of(st, fn)
+        bad = [('' if b else 'not ') + norm(t)[:50] for t, b in gs if not (b and isinstance(t, ast.Name) and t.id in src)]
+        chk.ob('C18.R3', 'genIndex/entered-whenever-the-status-has-the-oid %s' % norm(c)[:40], not bad, where(mod, c),
+               'the module is entered only under a further condition (%s): an OID the module defines can be left out '
+               'of the index' % '; '.join(bad))
+    inits = [s_ for s_ in walk_no_nested(lp) if isinstance(s_, ast.Assign) and isinstance(s_.targets[0], ast.Subscript)
+             and norm(s_.value) == '[]']
+    for s_ in inits:
+        gs = ir.guards_of(s_, fn)
+        t_ = s_.targets[0]
+        want = '%s not in %s' % (norm(t_.slice), norm(t_.value))
+        ok_i = bool(gs) and gs[-1][1] and norm(gs[-1][0]) == want
+        chk.ob('C18.R3', 'genIndex/list-created-only-when-absent %s' % norm(t_)[:40], ok_i, where(mod, s_),
+               'an existing module list (from the earlier index or another module) is replaced by an empty one '
+               'unless the store is under `if %s`' % want)
+    chk.ob('C18.R3', 'genIndex/list-creations-found', len(inits) == 4, where(mod, lp), '%d found' % len(inits))
     chk.ob('C18.R3', 'genIndex/appends-module', ok, where(mod, lp), 'each section must append the module name')
     # monotone: no deletion / rebinding of sections other than oids
     for n in walk_no_nested(fn):
@@ -168,6 +201,89 @@ def r3_sections_monotone(chk):
         chk.ob('C18.R3', 'genIndex/compaction-shape', ok, where(mod, outer), 'for/else over the kept prefixes expected')
 
 
+def _order_decoded(chk, mod, fn):
+    """order(top) decoded arm by arm: which kind of value takes which arm, what each arm copies and what it returns"""
+    from rules import ir
+    tp = fn.args.args[0].arg
+    kinds = {'isinstance(%s, dict)' % tp: 'dict', 'isinstance(%s, list)' % tp: 'list'}
+
+    def arm(node):
+        pos, neg = set(), set()
+        for test, in_body in ir.guards_of(node, fn):
+            k = kinds.get(norm(test))
+            if k is None:
+                return None
+            (pos if in_body else neg).add(k)
+        if pos == {'dict'} and not neg:
+            return 'dict'
+        if pos == {'list'} and neg <= {'dict'}:
+            return 'list'
+        if not pos and neg == {'dict', 'list'}:
+            return 'other'
+        if not pos and not neg:
+            # code after the if-chain: reached by whatever arm does not return
+            return 'after'
+        return None
+    # containers created in the arms
+    made = {}
+    for s_ in walk_no_nested(fn):
+        if isinstance(s_, ast.Assign) and len(s_.targets) == 1 and isinstance(s_.targets[0], ast.Name):
+            v = norm(s_.value)
+            if v in ('OrderedDict()', '[]'):
+                made[(arm(s_), s_.targets[0].id)] = v
+    dloc = [n for (a, n), v in made.items() if a == 'dict' and v == 'OrderedDict()']
+    lloc = [n for (a, n), v in made.items() if a == 'list' and v == '[]']
+    chk.ob('C18.R4', 'order/arms-create-their-container', len(dloc) == 1 and len(lloc) == 1, where(mod, fn),
+           'mapping arm must build an OrderedDict, list arm a list (found %s)' % sorted(map(str, made.items())))
+    if not (len(dloc) == 1 and len(lloc) == 1):
+        return
+    dloc, lloc = dloc[0], lloc[0]
+    # copies
+    dcopies, lcopies, loops = [], [], []
+    for s_ in walk_no_nested(fn):
+        if isinstance(s_, ast.For):
+            loops.append(s_)
+    for lp in loops:
+        a = arm(lp)
+        var = lp.target.id if isinstance(lp.target, ast.Name) else None
+        it = norm(lp.iter)
+        body = [norm(b) for b in lp.body]
+        if a == 'dict':
+            ok = var is not None and it.startswith('sorted(%s' % tp) and body == [
+                '%s[%s] = %s(%s[%s])' % (dloc, var, fn.name, tp, var)] and not lp.orelse
+            dcopies.append((lp, ok))
+        elif a == 'list':
+            ok = var is not None and it == 'sorted(set(%s))' % tp and body == [
+                '%s.append(%s(%s))' % (lloc, fn.name, var)] and not lp.orelse
+            lcopies.append((lp, ok))
+        else:
+            chk.ob('C18.R4', 'order/loop-outside-the-arms', False, where(mod, lp), 'loop under guards that are not the kind tests')
+    chk.ob('C18.R4', 'order/mapping-arm-copies-every-key-ordered', len(dcopies) == 2 and all(ok for _, ok in dcopies),
+           where(mod, fn), 'both the numeric and the fallback loop must be `for k in sorted(%s ..): %s[k] = %s(%s[k])`'
+           % (tp, dloc, fn.name, tp))
+    chk.ob('C18.R4', 'order/list-arm-copies-every-member-once-ordered', len(lcopies) == 1 and all(ok for _, ok in lcopies),
+           where(mod, fn), '`for e in sorted(set(%s)): %s.append(%s(e))` expected' % (tp, lloc, fn.name))
+    # the fallback loop runs in the handler of the numeric one, for ValueError only
+    trys = [t for t in walk_no_nested(fn) if isinstance(t, ast.Try)]
+    ok = len(trys) == 1 and len(trys[0].handlers) == 1 and norm(trys[0].handlers[0].type) == 'ValueError' and \
+        not trys[0].finalbody and not trys[0].orelse and len(dcopies) == 2 and \
+        any(common._within(dcopies[0][0], b) for b in trys[0].body) and \
+        any(common._within(dcopies[1][0], b) for b in trys[0].handlers[0].body)
+    chk.ob('C18.R4', 'order/fallback-order-only-for-non-numeric-keys', ok, where(mod, trys[0] if trys else fn),
+           'numeric key order in the try body, plain order in its ValueError handler')
+    # returns
+    want = {'dict': dloc, 'list': lloc, 'other': tp, 'after': tp}
+    rets = [x for x in walk_no_nested(fn) if isinstance(x, ast.Return)]
+    seen = set()
+    for r_ in rets:
+        a = arm(r_)
+        seen.add(a)
+        chk.ob('C18.R4', 'order/returns %s-arm' % a, a in want and r_.value is not None and norm(r_.value) == want[a],
+               where(mod, r_), 'this arm must return %s' % want.get(a))
+    chk.ob('C18.R4', 'order/every-arm-returns', {'dict', 'list'} <= seen and ('other' in seen or 'after' in seen),
+           where(mod, fn), 'arms with a return: %s' % sorted(map(str, seen)))
+
+
 def r4_ordering(chk):
     model = chk.model
     ci = model.cls(JSONDOC, 'JsonCodeGen')
@@ -190,6 +306,8 @@ def r4_ordering(chk):
             common.pmatch(txt, 'for $k in sorted(%s)' % tp, full=False) is not None, where(mod, order[0]),
             'mapping keys must be sorted')
         chk.ob('C18.R4', 'order/recursion', txt.count('order(') >= 3, where(mod, order[0]), '')
+    if ok:
+        _order_decoded(chk, mod, order[0])
     rets = [x for x in walk_no_nested(fn) if isinstance(x, ast.Return)]
     ok = len(rets) == 1 and norm(rets[0].value).startswith('json.dumps(order(')
     chk.ob('C18.R4', 'genIndex/dumps-ordered-document', ok, where(mod, fn), 'returns %s' % [norm(r.value)[:60] for r in rets])
